@@ -8,8 +8,8 @@
  * "nothing leaks" is `g_sx_live == value before the call`; "freed exactly
  * once" is that count together with the allocator's own double-free /
  * invalid-free checks (CBMC pointer checks in the proof, ASan in the replay).
- * Allocation failure is not modelled: CBMC's malloc does not fail, and sx.c
- * treats failure as fatal (sxoom -> _Exit).
+ * A failed allocation (CBMC 6: malloc may return NULL) is not counted; sx.c
+ * treats it as fatal (sxoom -> fprintf, _Exit), which ends the path.
  */
 #ifndef STUBS_SX_ALLOC_H
 #define STUBS_SX_ALLOC_H
